@@ -477,7 +477,34 @@ def _state_path(e, alias):
         ms = alias.get("@methods")
         if ms and isinstance(f, ast.Attribute) and isinstance(f.value, ast.Name) and alias.get(f.value.id) == {"self"} \
                 and nm in ms[0] and ms[1] < 3:
-            return _method_return_paths(ms[0][nm], ms[0], ms[1] + 1)
+            return _method_return_paths(ms[0][nm], ms[0], ms[1] + 1, alias.get("@components"))
+        if isinstance(f, ast.Attribute) and nm in ("get", "pop", "setdefault") and _state_path(f.value, alias):
+            return _elem(_state_path(f.value, alias))      # an entry of a stored dict / list
+        comps = alias.get("@components")
+        if comps and isinstance(f, ast.Attribute) and nm in comps[0] and comps[1] < 2 \
+                and not (isinstance(f.value, ast.Name) and alias.get(f.value.id) == {"self"}):
+            recv = _state_path(f.value, alias)
+            if recv:
+                # a method of a stored component (self.mean.gradient(..), self.cov.covariance_and_gradients(..)): what any class
+                # that defines the method may hand back - an object it keeps, or (a view of) one of its arguments
+                out = set()
+                for cfn in comps[0][nm]:
+                    n_par = len(cfn.args.args) - 1
+                    n_req = n_par - len(cfn.args.defaults)
+                    if cfn.args.vararg is None and not (n_req <= len(e.args) + len(e.keywords) and len(e.args) <= n_par):
+                        continue                      # not callable with these arguments: another class's method of the same name
+                    for p_ in _callee_return_paths(cfn, comps[0], comps[1] + 1):
+                        if p_.startswith("@self"):
+                            out |= {b + p_[5:] for b in recv}
+                        elif p_.startswith("@p"):
+                            head = p_.split(".")[0].split("[")[0]
+                            i, rest = int(head[2:]), p_[len(head):]
+                            params = [a.arg for a in cfn.args.args][1:]
+                            arg = e.args[i] if i < len(e.args) else next((k.value for k in e.keywords if i < len(params) and k.arg == params[i]), None)
+                            if arg is not None and not any(isinstance(a, ast.Starred) for a in e.args):
+                                out |= {a + rest for a in _state_path(arg, alias)}
+                if out:
+                    return out
         if nm in VIEW_FUNCS | {"asfortranarray", "asarray_chkfinite", "atleast_3d", "require"} and e.args \
                 and not (isinstance(f, ast.Attribute) and not isinstance(f.value, ast.Name)):
             return _state_path(e.args[0], alias)
@@ -490,11 +517,73 @@ def _elem(paths):
     return {b if b.endswith("[]") else b + "[]" for b in paths}
 
 
-def _state_aliases(fn, roots, methods=None, _depth=0):
+_CALLEE_CACHE = {}
+
+
+def _callee_return_paths(fn, components, depth):
+    """What a component method may return, as paths rooted at `@self` (an object the component keeps) or `@p<i>` (its i-th
+    argument after the receiver): views, slices, elements; a copy or any arithmetic loses the path."""
+    key = (id(fn), depth)
+    if key in _CALLEE_CACHE:
+        return _CALLEE_CACHE[key]
+    _CALLEE_CACHE[key] = set()
+    params = [a.arg for a in fn.args.args]
+    if not params:
+        return set()
+    roots = {params[0]: "@self"}
+    for i, p_ in enumerate(params[1:]):
+        roots[p_] = f"@p{i}"
+    alias = _state_aliases(fn, roots, None, 0, components=(components, depth))
+    alias[params[0]] = {"@self"}
+    out = set()
+    for n in ast.walk(fn):
+        if isinstance(n, ast.Return) and n.value is not None:
+            vals = n.value.elts if isinstance(n.value, ast.Tuple) else [n.value]
+            for v in vals:
+                ps = _state_path(v, alias)
+                out |= ps
+    _CALLEE_CACHE[key] = out
+    return out
+
+
+def effective_function(mi, fn):
+    """The function that runs when `fn` is called: for a method under a decorator defined in the same module whose body returns a
+    nested function, that nested function (a memoising / logging wrapper); otherwise fn itself."""
+    for d in fn.decorator_list:
+        nm = d.id if isinstance(d, ast.Name) else d.func.id if isinstance(d, ast.Call) and isinstance(d.func, ast.Name) else None
+        dec = mi.functions.get(nm) if nm and mi is not None else None
+        if dec is None:
+            continue
+        inner = {n.name: n for n in dec.body if isinstance(n, ast.FunctionDef)}
+        for n in ast.walk(dec):
+            if isinstance(n, ast.Return) and isinstance(n.value, ast.Name) and n.value.id in inner:
+                return inner[n.value.id]
+    return fn
+
+
+def component_table(prog, exclude=()):
+    """method name -> [FunctionDef, ...] over every class of the program outside `exclude` (the receiver's own hierarchy)."""
+    tab = {}
+    ex = {id(c) for c in exclude}
+    for mi in prog.modules.values():
+        for ci in mi.classes.values():
+            if id(ci) in ex:
+                continue
+            for m, fn in ci.methods.items():
+                if m.startswith("__") and m != "__call__":
+                    continue
+                if fn.args.args and not any(ast.unparse(d) in ("staticmethod", "classmethod", "abstractmethod") for d in fn.decorator_list):
+                    tab.setdefault(m, []).append(effective_function(mi, fn))
+    return tab
+
+
+def _state_aliases(fn, roots, methods=None, _depth=0, components=None):
     """name -> set of access paths of stored objects the local name may be bound to (flow-insensitive fix-point)."""
     alias = {n: {lab} for n, lab in roots.items()}
     if methods:
         alias["@methods"] = (methods, _depth)
+    if components:
+        alias["@components"] = components if isinstance(components, tuple) else (components, 0)
     changed = True
     while changed:
         changed = False
@@ -545,12 +634,12 @@ def _state_aliases(fn, roots, methods=None, _depth=0):
     return alias
 
 
-def _method_return_paths(fn, methods, depth):
+def _method_return_paths(fn, methods, depth, components=None):
     """Access paths (rooted at the receiver) of the stored objects a method may hand out as its result."""
     if not fn.args.args:
         return set()
     me = fn.args.args[0].arg
-    alias = _state_aliases(fn, {me: "self"}, methods, depth)
+    alias = _state_aliases(fn, {me: "self"}, methods, depth, components=components)
     out = set()
     for n in ast.walk(fn):
         if isinstance(n, ast.Return) and n.value is not None:
@@ -560,12 +649,12 @@ def _method_return_paths(fn, methods, depth):
     return out
 
 
-def state_sinks(fn, roots, own_roots=("self",), methods=None):
+def state_sinks(fn, roots, own_roots=("self",), methods=None, components=None):
     """In-place updates, inside `fn`, of objects stored in (or reached from) the objects named in `roots` (name -> label), directly
     or through local aliases: [(path, lineno, text)].  Paths are like `self.sample`, `priors[].variables`.
     Flow-insensitive over aliases (a name that ever aliased a stored object counts), which is the safe direction.
     `methods` (name -> FunctionDef of the receiver's class) lets `self.m(..)` stand for the stored objects m returns."""
-    alias = _state_aliases(fn, roots, methods)
+    alias = _state_aliases(fn, roots, methods, components=components)
     out = []
 
     def hit(e, st, why):
